@@ -1,5 +1,4 @@
 import JP.Driver
-import JP.Props.C03spec
 import JP.Impl.Den
 
 /-! # Property C03 — theorems (see DESIGN.md §6) -/
